@@ -330,6 +330,9 @@ class C18(Check):
              ('big', '100, 101, 200, 4000, 4001 distinct examples (default '
                      'Size: do_all 100, do_all_exceptions 4000), 3 shape '
                      'families x 4 option points'),
+             ('wide', 'K distinct values in one position for K either side '
+                      'of max_strings_in_group / max_punc_in_group / '
+                      'MAX_VRLE_RANGE (alternations, classes, ranges)'),
              ('hist', 'E3 on one Extractor object: queries, change of the '
                       'result (setting + extract() again / results.remove), '
                       'queries again; depth <= 2 changes'),
@@ -349,7 +352,7 @@ class C18(Check):
         tier = eff_tier(tier)
         if tier != full and layer not in ('n1', 'n2', 'n3', 'overlap', 'meta',
                                           'long', 'zero', 'nl', 'routes',
-                                          'forms', 'big', 'hist'):
+                                          'forms', 'big', 'hist', 'wide'):
             return
         allo = range(len(AB.OPTIONS))
         if layer == 'n1':
@@ -447,6 +450,14 @@ class C18(Check):
                                 tier != 'thorough':
                             continue
                         yield {'k': 'big', 'K': K, 'fam': fi, 'bo': bo}
+        elif layer == 'wide':
+            for fi, fam in enumerate(AB.WIDE_FAMILIES):
+                for ti in range(len(fam[6])):
+                    for w in fam[5]:
+                        for K in fam[3]:
+                            for o in ((0, 1, 4) if ti == 1 else (0,)):
+                                yield {'k': 'wide', 'fam': fi, 'tpl': ti,
+                                       'w': w, 'K': K, 'o': o}
         elif layer == 'hist':
             for xs in itertools.combinations(H_ALPHA2, 2):
                 for o in (0, 3):
@@ -567,6 +578,21 @@ class C18(Check):
             return self.run_fn(case)
         if case.get('k') == 'big':
             return self.run_big(case)
+        if case.get('k') == 'wide':
+            f = AB.WIDE_FAMILIES[case['fam']]
+            xs = AB.wide_examples(f, case['K'], case['w'], f[6][case['tpl']])
+            R = Res()
+            self.reset()
+            o = case['o']
+            n = len(xs)
+            # all once (list); the widening value three times, every third
+            # value twice (dict)
+            for fv, form in (([1] * n, 'list'),
+                             ([2 if i % 3 == 0 else 1 for i in range(n - 1)]
+                              + [3], 'dict')):
+                self.one(R, xs, fv, form, o, dict(AB.OPTIONS[o]), False,
+                         False, None)
+            return R
         if case.get('k') == 'hist':
             return self.run_hist(case)
         R = Res()
